@@ -2349,8 +2349,24 @@ func buildAckRanges(entries []*shareAckState, gaps []shareAckRange) (ranges []sh
 			ackType:      t,
 		})
 	}
-	for _, g := range gaps {
-		ranges = coalesceAppendRange(ranges, g)
+	if len(gaps) == 0 {
+		return
+	}
+	// The broker requires a partition's batches in ascending offset order
+	// (it rejects the whole request otherwise), and a gap range can lie
+	// below a pending user entry: lower offsets that were released come
+	// back in a later fetch while acks of higher offsets are still queued.
+	// Merge the two sorted lists rather than appending gaps at the end.
+	entryRanges := ranges
+	ranges = make([]shareAckRange, 0, len(entryRanges)+len(gaps))
+	for len(entryRanges) > 0 || len(gaps) > 0 {
+		if len(gaps) == 0 || (len(entryRanges) > 0 && entryRanges[0].firstOffset < gaps[0].firstOffset) {
+			ranges = coalesceAppendRange(ranges, entryRanges[0])
+			entryRanges = entryRanges[1:]
+		} else {
+			ranges = coalesceAppendRange(ranges, gaps[0])
+			gaps = gaps[1:]
+		}
 	}
 	return
 }
